@@ -1,4 +1,5 @@
 import FitProps.ActivityLemmas
+import FitModel.Aggregator
 /-!
 # C20 — fitactivity: conceal hides the stretch; remove/reduce/combine conserve the rest
 
@@ -253,6 +254,23 @@ invariant "the entry of a key holds Σ of the last values of the earlier files" 
 def C20_combine_accumulate_full : Prop :=
   ∀ (fits : List (List Message)) (body : List Message) (tr : List Trailer),
     combine fits = .ok body tr → expectedBody fits = some body
+
+/-! ## aggregator (used by the combiner on sessions and split summaries) -/
+
+/-- **The invalid value is neutral for every aggregation rule** on unsigned fields: an invalid source leaves the
+destination as it is, and an invalid destination takes the source — whatever the rule the field name selects
+(sum, max, min, avg, fill), for every width. -/
+theorem C20_agg_invalid_neutral (op : Fit.Agg.Op) (w d s : Nat) :
+    Fit.Agg.aggU op w d (Fit.Agg.invU w) = d ∧ Fit.Agg.aggU op w (Fit.Agg.invU w) s = s := by
+  constructor
+  · unfold Fit.Agg.aggU
+    split
+    · split <;> simp_all
+    · simp
+  · unfold Fit.Agg.aggU
+    split
+    · simp
+    · simp; intro h; exact h.symm
 
 /-! ## non-vacuity -/
 
